@@ -269,7 +269,7 @@ def run(ctx):
     ctx.rule = ('option lattice of numqi.manifold enumerated by TLC (11 classes x methods x real/complex x float32/float64 x batch None,1,2%s x dim 2..%d x rank x |theta| <= 0.3, 2, 20, 100); '
                 '%s descriptors executed; per descriptor: module output, functional map in PyTorch and NumPy, per-sample and (k,l)-batched calls; membership decided by TLC on outputs rounded at '
                 'scale %d (PSD / rank by Gram certificate, separability by the decomposition held by the module); distinct by descriptor'
-                % ('' if quick else ',3', 4 if quick else 6, 'a seeded sample of 1500' if quick else 'all', SCALE))
+                % ('' if quick else ',3', 4 if quick else 6, 'a seeded sample with one descriptor from every (class, method, field, precision, batch, magnitude, option) cell and every (class, method, field, dim, rank) cell' if quick else 'all', SCALE))
     ctx.assumptions = ['TLC/SANY correct', 'membership up to the rounding tolerance: 2.5% of the squared scale for quadratic constraints, 1-3 units for linear ones',
                        'theta uniform in [-m, m]^n for the magnitude m of the descriptor (10 is the bound of the Cholesky-L map: m <= 2 there; exp up to 20)']
     ctx.not_covered = ['membership finer than the rounding tolerance (e.g. STRICT inequality of the open ball / open interval at saturation)', 'ABkHermitian / ABk2localHermitian helper classes',
@@ -280,12 +280,18 @@ def run(ctx):
     calls = [st['a'] for st in tlc.parse_dump(r)]
     calls.sort(key=lambda a: repr(sorted(a.items())))
     if quick:
-        # every (class, method, field, precision) keeps its place: sample within the strata
-        strata = {}
-        for a in calls:
-            strata.setdefault((a['cls'], a['method'], a['cplx'], a['p32']), []).append(a)
-        per = max(1, 1500 // len(strata))
-        calls = [a for k in sorted(strata) for a in rng.sample(strata[k], min(per, len(strata[k])))]
+        # two stratifications, one descriptor from every cell of each: (class, method, field, precision, batch, magnitude, option) - the
+        # argument branches - and (class, method, field, dim, rank) - the shapes; a change that needs one particular combination of
+        # either kind is then met whatever the seed
+        chosen = {}
+        for keyf in (lambda a: (a['cls'], a['method'], a['cplx'], a['p32'], a['batch'], a['mag'], a['opt']), lambda a: (a['cls'], a['method'], a['cplx'], a['d'], a['r'])):
+            cells = {}
+            for a in calls:
+                cells.setdefault(keyf(a), []).append(a)
+            for k in sorted(cells, key=repr):
+                a = rng.choice(cells[k])
+                chosen[repr(sorted(a.items()))] = a
+        calls = [chosen[k] for k in sorted(chosen)]
     ev, meta = [], []
     # instances of repaired findings stay pinned as regression inputs (6c0e751: single-precision polar map); a finding with status
     # 'known' in known_findings.json would be evaluated here in every run and reported as KNOWN-FINDING
